@@ -526,10 +526,19 @@ def lifecycle_cases(requests=('incr', 'decr', 'set', 'restart', 'reload',
                 st.fixed_dictionaries(
                     {"name": name, "match": st.just("simple")}),
                 st.just({"name": "W*"})))),
-            'reload': req('reload', ww(st.fixed_dictionaries(
-                {"name": name,
-                 "graceful": st.sampled_from([True, True, False]),
-                 "sequential": st.booleans()}))),
+            'reload': req('reload', ww(st.one_of(
+                st.fixed_dictionaries(
+                    {"name": name,
+                     "graceful": st.sampled_from([True, True, False]),
+                     "sequential": st.booleans()}),
+                st.fixed_dictionaries(
+                    {"name": name,
+                     "graceful": st.sampled_from([True, True, False]),
+                     "sequential": st.booleans()}),
+                # the whole daemon
+                st.fixed_dictionaries(
+                    {"graceful": st.sampled_from([True, False]),
+                     "sequential": st.booleans()})))),
             'stop': req('stop', ww(st.one_of(
                 st.fixed_dictionaries({"name": name,
                                        "match": st.just("simple")}),
